@@ -851,6 +851,436 @@ def gen_c08_case(rnd, steps):
     return Case(sh.lines, 'c08-malformed', {'cls': sh.cls})
 
 
+# ------------------------------------------------------------------------------------------------
+# C04 / C02: rich graphs (every kind, nesting depth <= 4, one target linked from many holders of different kinds)
+# ------------------------------------------------------------------------------------------------
+def build_graph(sh, size=1.0, reopen_at=None):
+    """populate `sh` with a dense link graph; returns nothing (the shadow knows what exists).
+    reopen_at: emit `reopen` after that many link steps (links made before and after a reopen)"""
+    rnd = sh.rnd
+    steps = [0]
+
+    def link(line):
+        sh.emit(line)
+        steps[0] += 1
+        if reopen_at is not None and steps[0] == reopen_at:
+            sh.emit('reopen')
+
+    nb = 1 if size < 1.0 else rnd.choice([1, 2])
+    secs = []
+    # the section tree first (metadata targets): roots, a chain of depth up to 4, properties
+    for r in range(rnd.choice([1, 2])):
+        s = sh.create('S', -1, chk=False)
+        secs.append(s)
+        cur = s
+        for depth in range(rnd.randint(1, 3)):
+            c = sh.create('S', cur, chk=False)
+            secs.append(c)
+            if rnd.random() < 0.6:
+                sh.create('P', c, chk=False)
+            if rnd.random() < 0.4:
+                secs.append(sh.create('S', cur, chk=False))      # a sibling
+            cur = c
+        sh.create('P', s, chk=False)
+    secs = [s for s in secs if s is not None]
+    for b_i in range(nb):
+        b = sh.create('B', chk=False)
+        arrs = []
+        for i in range(max(3, int(4 * size))):
+            k = sh.mk(b, 'A', sh.pick_new_name(b, 'A', 0.15), rnd.choice(TYPES), '%s 1 3' % rnd.choice(['Double', 'Int32', 'Double', 'Float']))
+            arrs.append(k)
+        frames = [sh.create('D', b, chk=False) for _ in range(rnd.choice([1, 2]))]
+        tags = [sh.create('T', b, chk=False) for _ in range(2)]
+        mtags = []
+        for _ in range(rnd.choice([1, 2])):
+            mtags.append(sh.mk(b, 'M', sh.pick_new_name(b, 'M', 0.1), 't', str(rnd.choice(arrs))))
+        groups = [sh.create('G', b, chk=False) for _ in range(rnd.choice([1, 2]))]
+        # sources: a chain of depth up to 4 with siblings
+        srcs = []
+        for r in range(rnd.choice([1, 2])):
+            cur = sh.create('R', b, chk=False)
+            srcs.append(cur)
+            for depth in range(rnd.randint(1, 3)):
+                c = sh.create('R', cur, chk=False)
+                srcs.append(c)
+                if rnd.random() < 0.4:
+                    srcs.append(sh.create('R', cur, chk=False))
+                cur = c
+        srcs = [s for s in srcs if s is not None]
+        # hubs: one array, one frame, one source, one section linked from every kind of holder
+        hub_a = rnd.choice(arrs)
+        for t in tags + mtags:
+            link('ladd %d ref %d' % (t, hub_a) if rnd.random() < 0.6 else 'ladds %d ref %s:%d' % (t, rnd.choice('ni'), hub_a))
+        for t in tags + mtags:
+            if rnd.random() < 0.7:
+                x = sh.mk(t, 'X', '', '', 'h %d %s' % (hub_a, rnd.choice(LT)))
+                sh.e[x]['name'] = None
+        for m in mtags:
+            if rnd.random() < 0.7:
+                link('setext %d %d' % (m, hub_a))
+            if rnd.random() < 0.4:
+                link('setpos %d %d' % (m, hub_a))
+        for g in groups:
+            link('ladd %d ga %d' % (g, hub_a))
+        hub_d = rnd.choice(frames)
+        for g in groups:
+            link('ladd %d gd %d' % (g, hub_d))
+        dim_arrs = rnd.sample(arrs, min(len(arrs), 2))
+        for a in dim_arrs:
+            link('dim %d frame %d' % (a, hub_d))
+            if rnd.random() < 0.5:
+                link('dim %d %s' % (a, rnd.choice(['set', 'sampled', 'range'])))
+            if rnd.random() < 0.4:
+                link('dim %d frame %d' % (a, hub_d))          # two descriptors, one frame
+        for a in arrs:
+            if a not in dim_arrs and rnd.random() < 0.5:
+                link('dim %d alias' % a)
+        hub_r = rnd.choice(srcs)
+        for h in [rnd.choice(arrs), rnd.choice(frames), rnd.choice(tags), rnd.choice(mtags), rnd.choice(groups)]:
+            link('ladd %d src %d' % (h, hub_r) if rnd.random() < 0.6 else 'ladds %d src i:%d' % (h, hub_r))
+        hub_s = rnd.choice(secs)
+        for h in [b, rnd.choice(srcs), rnd.choice(arrs), rnd.choice(frames), rnd.choice(tags), rnd.choice(mtags), rnd.choice(groups)]:
+            link('setmeta %d %d' % (h, hub_s) if rnd.random() < 0.6 else 'setmetas %d i:%d' % (h, hub_s))
+        for g in groups:
+            for t in tags:
+                if rnd.random() < 0.5:
+                    link('ladd %d gt %d' % (g, t))
+            for m in mtags:
+                if rnd.random() < 0.5:
+                    link('ladd %d gm %d' % (g, m))
+        for s in secs:
+            if s != hub_s and rnd.random() < 0.5:
+                link('setlink %d %d' % (s, hub_s))
+        if rnd.random() < 0.4:
+            link('setlink %d %d' % (hub_s, hub_s))                  # a section linked to itself
+        # more links at random
+        for _ in range(int(6 * size)):
+            n0 = len(sh.lines)
+            sh.valid_link_step(chk=False)
+            if len(sh.lines) > n0:
+                steps[0] += 1
+                if reopen_at is not None and steps[0] == reopen_at:
+                    sh.emit('reopen')
+
+
+def delete_lines(sh, k, how):
+    """the delete call for ordinal k: how in name / id / handle"""
+    d = sh.e[k]
+    p = sh.ptok(d['p'])
+    nm = d['name']
+    if how == 'name' and (d['K'] == 'X' or not nm or '/' in nm):
+        how = 'id'
+    if how == 'name':
+        return 'del %s %s n:%d' % (p, d['K'], k)
+    if how == 'id':
+        return 'del %s %s i:%d' % (p, d['K'], k)
+    return 'delh %s %s %d' % (p, d['K'], k)
+
+
+def after_delete_queries(sh, k, n=3):
+    """a few reads around the deleted entity: its container, some holders, has by id / stale handle"""
+    rnd = sh.rnd
+    d = sh.e[k]
+    out = ['chk %s %s' % (sh.ptok(d['p']), d['K']), 'has %s %s i:%d' % (sh.ptok(d['p']), d['K'], k)]
+    ls = sh.lcontainers()
+    for h, sl in rnd.sample(ls, min(n, len(ls))):
+        out.append('lchk %d %s' % (h, sl))
+    for x in sh.live('TM')[:2]:
+        out.append('chk %d X' % x)
+    return out
+
+
+def gen_c04_cases(rnd, ngraphs, per_graph, every=False):
+    """per graph: the prefix that builds it, then one case per chosen (entity, way of naming it)"""
+    cases = []
+    for g in range(ngraphs):
+        seed = rnd.randrange(1 << 30)
+        proto = Shadow(random.Random(seed))
+        build_graph(proto, size=rnd.choice([0.7, 1.0, 1.3]), reopen_at=rnd.choice([None, 3, 8, 15]))
+        if rnd.random() < 0.5:
+            proto.emit('reopen')
+        live = proto.live('BSPADTMGRX')
+        if every:
+            choices = [(k, how) for k in live for how in ('name', 'id', 'handle')]
+        else:
+            # a sample that covers the kinds
+            bykind = {}
+            for k in live:
+                bykind.setdefault(proto.e[k]['K'], []).append(k)
+            choices = []
+            kinds = sorted(bykind)
+            rnd.shuffle(kinds)
+            for K in kinds[:per_graph]:
+                choices.append((rnd.choice(bykind[K]), rnd.choice(['name', 'id', 'handle'])))
+        for k, how in choices:
+            import copy
+            sh = copy.deepcopy(proto)
+            sh.rnd = random.Random(seed ^ (k * 7919))
+            sh.emit(delete_lines(sh, k, how))
+            sh.kill(k)
+            for l in after_delete_queries(sh, k):
+                sh.emit(l)
+            if sh.rnd.random() < 0.5:
+                sh.emit('reopen')
+                sh.emit('observe')
+            cases.append(Case(sh.lines, 'c04-one-%s-%s' % (proto.e[k]['K'], how), {'cls': sh.cls}))
+    return cases
+
+
+def gen_c04_sequence(rnd, steps):
+    """a graph, then a sequence of deletes of every kind interleaved with new links, re-creations and reopens"""
+    sh = Shadow(rnd)
+    build_graph(sh, size=rnd.choice([0.7, 1.0]), reopen_at=rnd.choice([None, 5, 12]))
+    for _ in range(steps):
+        r = rnd.random()
+        live = sh.live('BSPADTMGRX')
+        if not live:
+            break
+        if r < 0.6:
+            # prefer holders and hubs early: weight by kind
+            k = rnd.choice(live)
+            sh.emit(delete_lines(sh, k, rnd.choice(['name', 'id', 'handle'])))
+            sh.kill(k)
+            if rnd.random() < 0.4:
+                for l in after_delete_queries(sh, k, 2):
+                    sh.emit(l)
+        elif r < 0.8:
+            sh.valid_link_step(chk=False)
+        elif r < 0.9:
+            sh.create(rnd.choice('ADTMGRSX'), chk=False)
+        else:
+            sh.emit('reopen')
+            for d in sh.e:
+                if not d['alive']:
+                    d['ok'] = False
+    sh.emit('observe')
+    return Case(sh.lines, 'c04-sequence', {'cls': sh.cls})
+
+
+# ------------------------------------------------------------------------------------------------
+# C02: histories of create / modify / link / unlink / delete over all kinds, with flush and the reopen kinds
+# ------------------------------------------------------------------------------------------------
+SI_UNITS = ['mV', 's', 'Hz', 'ms', 'kg', 'A']
+DVALS = ['d:3ff0000000000000', 'd:4000000000000000', 'd:bff8000000000000', 'd:3fb999999999999a', 'd:0000000000000000', 'd:40c3880000000000']
+
+
+def modify_step(sh, st):
+    """one well-formed change of an attribute, of data or of a descriptor (st: side table of the generator:
+    rows of frames, descriptor count of arrays, value type of properties)"""
+    rnd = sh.rnd
+    c = rnd.choice(['type', 'def', 'def', 'label', 'unit', 'origin', 'poly', 'wdata', 'wdata', 'dim', 'dim', 'dimset', 'deldims',
+                    'frows', 'wrow', 'wrow', 'punit', 'puncert', 'pvals', 'repo', 'tpos', 'text', 'units', 'created', 'created', 'extent'])
+    if c == 'type':
+        ks = sh.live('BSRADTMG')
+        if ks:
+            sh.emit('settype %d %s' % (rnd.choice(ks), hx(rnd.choice(['t2', 'nix.other', 'x y']))))
+    elif c == 'def':
+        ks = sh.live('BSRADTMGP')
+        if ks:
+            sh.emit(rnd.choice(['setdef %d %s' % (rnd.choice(ks), hx(rnd.choice(['a definition', 'déf', 'x']))), 'setdef %d -' % rnd.choice(ks)]))
+    elif c in ('label', 'unit', 'origin', 'poly', 'wdata', 'dim', 'dimset', 'deldims', 'extent'):
+        ks = sh.live('A')
+        if not ks:
+            return
+        a = rnd.choice(ks)
+        if c == 'label':
+            sh.emit('setlabel %d %s' % (a, hx(rnd.choice(['voltage', 'l', 'zeit']))) if rnd.random() < 0.8 else 'setlabel %d -' % a)
+        elif c == 'unit':
+            sh.emit('setunit %d %s' % (a, hx(rnd.choice(SI_UNITS))) if rnd.random() < 0.8 else 'setunit %d -' % a)
+        elif c == 'origin':
+            sh.emit('setorigin %d %s' % (a, rnd.choice(DVALS)) if rnd.random() < 0.8 else 'setorigin %d -' % a)
+        elif c == 'poly':
+            n = rnd.choice([1, 2, 3])
+            sh.emit('setpoly %d %d %s' % (a, n, ' '.join(rnd.choice(DVALS) for _ in range(n))))
+        elif c == 'wdata':
+            sh.emit('wdata %d %d' % (a, rnd.randrange(1000)))
+        elif c == 'dim':
+            q = rnd.random()
+            if q < 0.2:
+                sh.emit('dim %d alias' % a)
+            elif q < 0.4:
+                fs = sh.live('D', block=sh.block_of(a))
+                if fs:
+                    sh.emit('dim %d frame %d' % (a, rnd.choice(fs)))
+            else:
+                sh.emit('dim %d %s' % (a, rnd.choice(['set', 'range', 'sampled'])))
+            st['dims'][a] = st['dims'].get(a, 0) + 1          # a guess: an invalid append changes nothing and dimset is tolerant
+        elif c == 'dimset':
+            sh.emit('dimset %d %d %d' % (a, rnd.choice([1, 1, 2, 3]), rnd.randrange(1000)))
+        elif c == 'deldims':
+            if rnd.random() < 0.3:
+                sh.emit('deldims %d' % a)
+                st['dims'][a] = 0
+        else:
+            pass
+    elif c in ('frows', 'wrow'):
+        ks = sh.live('D')
+        if not ks:
+            return
+        d = rnd.choice(ks)
+        if c == 'frows' or st['rows'].get(d, 0) == 0:
+            n = rnd.choice([1, 2, 3, 5])
+            sh.emit('frows %d %d' % (d, n))
+            st['rows'][d] = n
+        else:
+            sh.emit('wrow %d %d %d' % (d, rnd.randrange(st['rows'][d]), rnd.randrange(1000)))
+    elif c in ('punit', 'puncert', 'pvals'):
+        ks = sh.live('P')
+        if not ks:
+            return
+        p = rnd.choice(ks)
+        if c == 'punit':
+            sh.emit('punit %d %s' % (p, hx(rnd.choice(SI_UNITS + ['spikes']))) if rnd.random() < 0.8 else 'punit %d -' % p)
+        elif c == 'puncert':
+            sh.emit('puncert %d %s' % (p, rnd.choice(DVALS)) if rnd.random() < 0.8 else 'puncert %d -' % p)
+        else:
+            ty = st['ptype'].get(p)
+            if ty:
+                n = rnd.choice([0, 1, 2, 4])
+                sh.emit(('setvals %d %d %s' % (p, n, ' '.join([ty] * n))).strip())
+    elif c == 'repo':
+        ks = sh.live('S')
+        if ks:
+            sh.emit('setrepo %d %s' % (rnd.choice(ks), hx('http://example.org/terms')) if rnd.random() < 0.8 else 'setrepo %d -' % rnd.choice(ks))
+    elif c in ('tpos', 'text'):
+        ks = sh.live('T')
+        if ks:
+            n = rnd.choice([1, 2, 3])
+            vals = ' '.join(rnd.choice(DVALS) for _ in range(n))
+            if c == 'tpos':
+                sh.emit('settpos %d %d %s' % (rnd.choice(ks), n, vals))
+            else:
+                sh.emit('settext %d %d %s' % (rnd.choice(ks), n, vals) if rnd.random() < 0.8 else 'settext %d -' % rnd.choice(ks))
+    elif c == 'units':
+        ks = sh.live('TM')
+        if ks:
+            n = rnd.choice([1, 2])
+            sh.emit('setunits %d %d %s' % (rnd.choice(ks), n, ' '.join(hx(rnd.choice(SI_UNITS)) for _ in range(n))) if rnd.random() < 0.8
+                    else 'setunits %d -' % rnd.choice(ks))
+    elif c == 'created':
+        ks = sh.live('BSRADTMGPX')
+        if rnd.random() < 0.25:
+            sh.emit('forcecreated F %d' % (1000000000 + rnd.randrange(400000000)))
+        elif ks:
+            sh.emit('forcecreated %d %d' % (rnd.choice(ks), 1000000000 + rnd.randrange(400000000)))
+
+
+def unlink_step(sh):
+    rnd = sh.rnd
+    what = rnd.choice(['lrm', 'lrm', 'lset', 'meta', 'link', 'ext'])
+    if what in ('lrm', 'lset'):
+        ls = sh.lcontainers()
+        if not ls:
+            return
+        h, sl = rnd.choice(ls)
+        ts = sh.live(SLKIND[sl], block=sh.block_of(h))
+        if not ts:
+            return
+        if what == 'lrm':
+            t = rnd.choice(ts)
+            sh.emit('lrm %d %s %d' % (h, sl, t) if rnd.random() < 0.5 else 'lrms %d %s i:%d' % (h, sl, t))
+        else:
+            n = rnd.randint(0, min(3, len(ts)))
+            sh.emit(('lset %d %s %d %s' % (h, sl, n, ' '.join(map(str, rnd.sample(ts, n))))).strip())
+    elif what == 'meta':
+        ks = sh.live('BRADTMG')
+        if ks:
+            sh.emit('setmeta %d -' % rnd.choice(ks))
+    elif what == 'link':
+        ks = sh.live('S')
+        if ks:
+            sh.emit('setlink %d -' % rnd.choice(ks))
+    else:
+        ks = sh.live('M')
+        if ks:
+            sh.emit('setext %d -' % rnd.choice(ks))
+
+
+REOPENS = ['reopen rw', 'reopen ro', 'reopen other', 'reopen otherw']
+
+
+def ro_phase(sh):
+    """a read-only session: queries only, then back to read-write"""
+    rnd = sh.rnd
+    sh.emit('reopen ro')
+    for _ in range(rnd.randint(0, 3)):
+        if rnd.random() < 0.5:
+            p, K = rnd.choice(sh.containers())
+            sh.emit('chk %s %s' % (sh.ptok(p), K))
+        else:
+            ls = sh.lcontainers()
+            if ls:
+                h, sl = rnd.choice(ls)
+                sh.emit('lchk %d %s' % (h, sl))
+    if rnd.random() < 0.3:
+        sh.emit('reopen other')           # another reader next to a read-only session that was closed
+    sh.emit('reopen rw')
+
+
+def after_reopen(sh):
+    for d in sh.e:
+        if not d['alive']:
+            d['ok'] = False
+
+
+def gen_c02_case(rnd, steps, every_k, flavour):
+    sh = Shadow(rnd)
+    st = {'rows': {}, 'dims': {}, 'ptype': {}}
+    build_graph(sh, size=rnd.choice([0.7, 1.0]), reopen_at=None)
+    # the value types of the properties created so far (from their mk lines)
+    k = 0
+    for l in sh.lines:
+        t = l.split(' ')
+        if t[0] == 'mk':
+            if t[2] == 'P' and len(t) > 6:
+                st['ptype'][k] = t[6] if t[5] == 't' else (t[7] if len(t) > 7 else None)
+            k += 1
+    since = 0
+    for i in range(steps):
+        r = rnd.random()
+        n0 = len(sh.lines)
+        if r < 0.18:
+            K = rnd.choice('BSPADTMGRX')
+            k0 = sh.create(K, chk=False)
+            if k0 is not None and K == 'P':
+                t = sh.lines[-1].split(' ')
+                st['ptype'][k0] = t[6] if t[5] == 't' else (t[7] if len(t) > 7 else None)
+        elif r < 0.55:
+            modify_step(sh, st)
+        elif r < 0.72:
+            sh.valid_link_step(chk=False)
+        elif r < 0.82:
+            unlink_step(sh)
+        elif r < 0.92:
+            live = sh.live('BSPADTMGRX')
+            if live:
+                k0 = rnd.choice(live)
+                sh.emit(delete_lines(sh, k0, rnd.choice(['name', 'id', 'handle'])))
+                sh.kill(k0)
+        elif r < 0.96:
+            sh.emit('flush')
+        else:
+            sh.emit('observe')
+        since += len(sh.lines) - n0
+        if every_k and since >= every_k:
+            since = 0
+            kind = rnd.choice(REOPENS) if flavour == 'mixed' else flavour
+            if kind == 'reopen ro':
+                ro_phase(sh)
+            else:
+                sh.emit(kind)
+            after_reopen(sh)
+    # at the end: all kinds
+    if rnd.random() < 0.5:
+        sh.emit('flush')
+    sh.emit('reopen rw')
+    ro_phase(sh)
+    sh.emit('reopen other')
+    sh.emit('reopen otherw')
+    sh.emit('observe')
+    return Case(sh.lines, 'c02-' + (flavour.replace('reopen ', '') if every_k else 'end-only'), {'cls': sh.cls})
+
+
 def load_corpus(pid):
     """tools/corpus/<pid>/*.case: minimised witnesses, always run first.  `#@ <label>` labels the class of the
     invalid argument of the script line that follows it (used by the signature)."""
